@@ -63,6 +63,7 @@ SEEDS = {
     "C13c-quoted-strings-in-cfg": ("C13", "a string option (output, tracking, Impedance, InitialDistFile) containing a blank or tab: written in double quotes, which the config reader keeps as part of the value", []),
     "C14c-setup-sigint-erased-by-h5-create": ("C14", "a signal arriving during set-up (before the results file is created) in a run that writes an HDF5 file: the flag is overwritten, the run continues to the end", []),
     "C10c-stored-impedance-is-radiation-impedance": ("C10", "a dynamics impedance with anything besides single-bucket CSR (wall, collimator, file) or more than one bucket: /Impedance stores the radiation impedance, not the one the stored wake was computed with", []),
+    "C12c-fp-skipped-when-fptrack-none": ("C12", "--FPTrack 0 (with or without a tracking file) while the Fokker-Planck term is on: the grid's damping/diffusion step is skipped - a tracking option changes the physics", ["C04"]),
     "C10-": ("C10", "", []),
     "C17-": ("C17", "", []),
 }
